@@ -232,6 +232,12 @@ def emit_cpp(prog, opts=None):
         for r in range(len(prog.root.regions)):
             out.append('  vf_log(%d, vf_sidx(0, (int)VF_IDS(g_sm)[%d]));' % (6000 + 100 + r, r))
         out.append('}')
+    if opts.get('probe') == 'ids_all':
+        out.append('void vf_probe(void) {   // C19: the ids every machine level reports, queried inside the behaviour')
+        for m in prog.machines:
+            for r in range(len(m.regions)):
+                out.append('  vf_log(%d, vf_sidx(%d, (int)VF_IDS(%s)[%d]));' % (6000 + 100 + 8 * m.idx + r, m.idx, machine_obj(prog, m), r))
+        out.append('}')
     if opts.get('probe') == 'flags_or':
         out.append('int vf_flags(void);')
         out.append('void vf_probe(void) { vf_log(6000, vf_flags() & 0xff); }   // C17: OR answers of every flag, queried inside the behaviour')
